@@ -919,4 +919,30 @@ theorem tmplRun_inv : ∀ (writes : List (Name × Name × R)) (s : Tmpl R) (pre 
     · simp [tmplRun, h1, h2]
     · simpa [List.append_assoc] using hinv2
 
+theorem tmplRunC_inv : ∀ (ops : List (TOp R)) (s : TmplC R) (pre : List (List R)) (ws : List (Name × R)),
+    TmplInv s.t pre ws → ∃ s' oks, tmplRunC s ops = some (s', oks) ∧ oks.length = ops.length ∧
+      TmplInv s'.t pre (ws ++ acceptedWrites ops oks) := by
+  intro ops
+  induction ops with
+  | nil => intro s pre ws h; exact ⟨s, [], rfl, rfl, by simpa [acceptedWrites] using h⟩
+  | cons op ops ih =>
+    intro s pre ws h
+    cases op with
+    | close =>
+      obtain ⟨s2, oks, h2, hl, hinv2⟩ := ih { s with closed := true } pre ws h
+      refine ⟨s2, true :: oks, ?_, by simp [hl], ?_⟩
+      · simp [tmplRunC, tmplStepC, h2]
+      · simpa [acceptedWrites] using hinv2
+    | write p st r =>
+      by_cases hc : (s.closed && s.t.currentPath == some p) = true
+      · obtain ⟨s2, oks, h2, hl, hinv2⟩ := ih s pre ws h
+        refine ⟨s2, false :: oks, ?_, by simp [hl], ?_⟩
+        · simp [tmplRunC, tmplStepC, hc, h2]
+        · simpa [acceptedWrites] using hinv2
+      · obtain ⟨t1, h1, hinv1, _⟩ := tmplWrite_inv s.t pre ws p st r h
+        obtain ⟨s2, oks, h2, hl, hinv2⟩ := ih { t := t1, closed := false } pre _ hinv1
+        refine ⟨s2, true :: oks, ?_, by simp [hl], ?_⟩
+        · simp [tmplRunC, tmplStepC, hc, h1, h2]
+        · simpa [acceptedWrites, List.append_assoc] using hinv2
+
 end FlowRecord.Writers
